@@ -42,6 +42,23 @@ Proof.
     split; [exact E1|]. apply (ptr_insert_dup f s root t a n fuel HR Ha ltac:(lia) E1).
 Qed.
 
+(* double registration: iv_avl_tree_insert is handed the node object that is
+   already linked in the tree (a = f k).  It returns -1 and performs no store at
+   all: the state, including the fields of that very node, is unchanged. *)
+Theorem ptr_reinsert_linked_C16 :
+  forall f s root t k fuel,
+    RepF f s root t -> Inv t -> In k (inorder t) -> (depth t <= fuel)%nat ->
+    exists n, PM.find (f k) s = Some n /\ n_key n = k
+      /\ AvlModel.insert k t = None
+      /\ iv_avl_tree_insert fuel (mkState s root) (Some (f k)) = Ok (mkState s root, -1).
+Proof.
+  intros f s root t k fuel HR HI Hin Hfuel. pose proof HR as (_ & _ & Hrep).
+  destruct (rep_find f s t None k Hrep Hin) as (n & Hn & Hkey).
+  destruct (avl_insert_duplicate t k HI Hin) as (E1 & _).
+  exists n. split; [exact Hn|]. split; [exact Hkey|]. split; [exact E1|].
+  apply (ptr_insert_dup f s root t (f k) n fuel HR Hn Hfuel). rewrite Hkey. exact E1.
+Qed.
+
 Theorem ptr_delete_C16 :
   forall f s root t k fuel,
     RepF f s root t -> Inv t -> In k (inorder t) -> (depth t <= fuel)%nat ->
@@ -172,6 +189,11 @@ Definition fof (s : store) (k : Z) : positive :=
 
 Definition to_pop (o : op) : pop := match o with Ins k => PIns k | Del k => PDel k end.
 
+(* the functional counterpart of a driver operation: inserting the already
+   linked node is, for the functional model, a duplicate insert *)
+Definition pop_op (p : pop) : op :=
+  match p with PIns k => Ins k | PDel k => Del k | PReins k => Ins k end.
+
 Fixpoint ids_eqb (a b : list positive) : bool :=
   match a, b with
   | [], [] => true
@@ -181,13 +203,13 @@ Fixpoint ids_eqb (a b : list positive) : bool :=
 
 (* run a history on both levels and check RepF, the return code and the
    forward traversal after every operation *)
-Fixpoint check_hist (fuel : nat) (ops : list op) (m : machine) (t : tree) : bool :=
+Fixpoint check_hist (fuel : nat) (ops : list pop) (m : machine) (t : tree) : bool :=
   match ops with
   | [] => true
   | o :: ops' =>
-      match pstep fuel (Some 1%positive) 170 m (to_pop o) with
+      match pstep fuel (Some 1%positive) 170 m o with
       | Ok (m', rc) =>
-          let '(t', rc') := step t o in
+          let '(t', rc') := step t (pop_op o) in
           let s := st_store (m_state m') in
           let f := fof s in
           (rc =? rc') && repf_b f s (st_root (m_state m')) t'
@@ -200,18 +222,20 @@ Fixpoint check_hist (fuel : nat) (ops : list op) (m : machine) (t : tree) : bool
       end
   end.
 
-Definition hist_ok (fuel : nat) (ops : list op) : bool :=
-  match prun fuel (Some 1%positive) 170 (map to_pop ops) empty_machine with
-  | Ok m => repf_b (fof (st_store (m_state m))) (st_store (m_state m)) (st_root (m_state m)) (run ops E)
+Definition hist_ok (fuel : nat) (pops : list pop) : bool :=
+  match prun fuel (Some 1%positive) 170 pops empty_machine with
+  | Ok m => repf_b (fof (st_store (m_state m))) (st_store (m_state m)) (st_root (m_state m))
+              (run (map pop_op pops) E)
   | _ => false
   end.
 
-Lemma hist_ok_spec fuel ops :
-  hist_ok fuel ops = true ->
-  exists m, prun fuel (Some 1%positive) 170 (map to_pop ops) empty_machine = Ok m
-    /\ RepF (fof (st_store (m_state m))) (st_store (m_state m)) (st_root (m_state m)) (run ops E).
+Lemma hist_ok_spec fuel pops :
+  hist_ok fuel pops = true ->
+  exists m, prun fuel (Some 1%positive) 170 pops empty_machine = Ok m
+    /\ RepF (fof (st_store (m_state m))) (st_store (m_state m)) (st_root (m_state m))
+         (run (map pop_op pops) E).
 Proof.
-  unfold hist_ok. destruct (prun fuel (Some 1%positive) 170 (map to_pop ops) empty_machine) as [m| | |];
+  unfold hist_ok. destruct (prun fuel (Some 1%positive) 170 pops empty_machine) as [m| | |];
     try discriminate.
   intros H. exists m. split; [reflexivity | apply repf_b_spec; exact H].
 Qed.
